@@ -48,7 +48,7 @@ def run(tier, seed):
     except ImportError:
         pass
     seeds = list(range(8)) if tier == "quick" else list(range(32))
-    n = 3 if tier == "quick" else 12
+    n = 3 if tier == "quick" else 30
     res = harness.pmap(_run_seed, [(s, seed, n) for s in seeds], procs=min(len(seeds), 16))
     base = None
     diffs, total, graph_nonrepeat = [], 0, []
